@@ -230,6 +230,23 @@ Proof.
   destruct (get_field_def s q (n_val n)) as [fd|] eqn:E; [|reflexivity]. simpl. rewrite (Hc fd eq_refl). reflexivity.
 Qed.
 
+(* [lookups_agree] from rule verdicts: ScalarLeafs silent, no introspection meta
+   field with a sub-selection, and field types that are leaf or composite types
+   (schema validity: output types that exist) *)
+Theorem lookups_agree_rules s d :
+  r08_scalar_leafs s d = [] ->
+  (forall p n f, get_field_def s p n = Some f ->
+     is_leaf s (unwrap (sf_type f)) = true \/ is_composite s (unwrap (sf_type f)) = true) ->
+  (forall q a n args dirs l0 sub l, reaches s d (Some q) (SField a n args dirs (Some l0) sub l) ->
+     meta_name (n_val n) = false) ->
+  lookups_agree s d.
+Proof.
+  intros H8 Hout Hmeta. apply lookups_agree_plain. intros q a n args dirs l0 sub l Hr.
+  split; [eapply Hmeta; exact Hr|]. intros fd Hfd. destruct (Hout _ _ _ Hfd) as [Hl|Hc]; [|exact Hc].
+  exfalso. apply (shape_static s d H8). exists q, a, n, args, dirs, (Some l0), sub, l, fd.
+  split; [exact Hr|]. split; [exact Hfd|]. left. split; [exact Hl|discriminate].
+Qed.
+
 (* ---- the theorem about named fragments with checkable hypotheses ---- *)
 Theorem merge_named_plain fuel s d :
   NoDup (selset_locs (doc_events s d)) ->
